@@ -1267,6 +1267,7 @@ fn run_c13(out: &mut Out, rng: &mut Rng, work: &str) -> BTreeMap<String, u64> {
 			out.line(&format!("chain deliver {} b{}", name, i), &r);
 			out.line(&format!("chain obs {}", name), &subj.obs(kit));
 			if r == "ok:head" {
+				let before = (subj.obs(kit), subj.roots());
 				for (_, tx) in &probes {
 					let d = tx_desc(kit, tx);
 					let m = match subj.c().verify_coinbase_maturity(&tx.inputs()) {
@@ -1284,6 +1285,14 @@ fn run_c13(out: &mut Out, rng: &mut Rng, work: &str) -> BTreeMap<String, u64> {
 						Err(e) => format!("err:{}", error_class(&e)),
 					};
 					out.line(&format!("chain txval {} {}", name, d), &v);
+				}
+				// C06, transaction clause: validating (and refusing) transactions leaves the state untouched
+				let after = (subj.obs(kit), subj.roots());
+				if before != after {
+					out.raw(&format!(
+						"#ORACLE-FAIL C06 validating transactions changed the chain state: subject={} after b{}: before=[{} {}] after=[{} {}]",
+						name, i, before.0, before.1, after.0, after.1
+					));
 				}
 			}
 		}
